@@ -1,6 +1,9 @@
 #!/bin/bash
-# developer helper: refresh kernels + _CoqProject + Makefile, then make
+# developer helper: refresh kernels + _CoqProject + Makefile, then make -k (under the same lock ./check uses)
 cd "$(dirname "$0")/.."
+mkdir -p .work
+exec 9>.work/build.lock
+flock 9
 /venv/bin/python translate/kernels.py /repo coq/theories/Gen
 /venv/bin/python -c "import sys; sys.path.insert(0,'harness'); import framework; framework.write_coqproject()"
-cd coq && coq_makefile -f _CoqProject -o Makefile >/dev/null && timeout 3000 make -k -j16 2>&1 | grep -E "Error|error|^File|\*\*\*" -A12 | head -${1:-60}
+cd coq && { [ Makefile -nt _CoqProject ] || coq_makefile -f _CoqProject -o Makefile >/dev/null; } && timeout 3000 make -k -j16 2>&1 | grep -E "Error|error|^File|\*\*\*" -A12 | head -${1:-60}
